@@ -46,6 +46,10 @@ def _base(n_steps, cheap=False):
     # same instants, so anything cached per-instant across agents shows up as a last-bit change of 10001's truth
     t0 = scen.target_eci(10000, [p1[0] + 0.03, p1[1] - 0.03, p1[2] + 0.02], v1)
     t2 = scen.target_eci(10002, *scen.overhead_orbit(START, 0.05, 25.0, 35786.0, 90.0), station_keeping=["GEO EW", "GEO NS"])
+    # a LEO target that keeps its altitude: an unplanned retrograde impulse in step 2 lowers its semi-major axis by more
+    # than the keeper's 2 km threshold, so the station-keeping routine has to FIRE from step 2 on - in the truth-only twin
+    # as much as in the full run (where the live agent has been copied to the tasking workers in between)
+    t3 = scen.target_eci(10005, *scen.overhead_orbit(START, 12.0, 23.0, 700.0, 50.0), station_keeping=["LEO"])
     s1 = scen.ground_sensor(20001, 10.0, 20.0, fov={"fov_shape": "conic", "cone_angle": 30.0})
     s2 = scen.space_sensor(20002, [0.0, 7500.0, 0.0], [-5.2, 0.0, 5.2], kind="optical")
     ev = [{
@@ -59,6 +63,9 @@ def _base(n_steps, cheap=False):
                "event_type": "impulse", "thrust_vector": [0.0, 2e-3, 1e-3], "thrust_frame": "ntw", "planned": False})
     ev.append({"scope": "agent_propagation", "scope_instance_id": 10000, "start_time": scen.iso(START + timedelta(seconds=3 * DT + 11)),
                "event_type": "impulse", "thrust_vector": [1e-3, 0.0, -1e-3], "thrust_frame": "eci", "planned": True})
+    if not cheap:  # (the schedule exploration's network stays at three targets: its batches of 4 get all 24 orders)
+      ev.append({"scope": "agent_propagation", "scope_instance_id": 10005, "start_time": scen.iso(START + timedelta(seconds=DT + 29)),
+                 "event_type": "impulse", "thrust_vector": [0.0, -2.5e-3, 0.0], "thrust_frame": "ntw", "planned": False})
     # two targets added while the run is in progress (their truth dynamics are built by Scenario.addTarget)
     for j, k in ((0, 1), (1, 2)):
         ev.append({
@@ -67,7 +74,7 @@ def _base(n_steps, cheap=False):
             "target_agent": scen.target_eci(10006 + j, *scen.overhead_orbit(START, 10.0 + j, 19.0 + j, 1000.0 + 100 * j, 60.0)),
         })
     cfg = scen.config(
-        START, n_steps + 1, [scen.engine(1, [t0, t1, t2], [s1, s2])], physics=DT, model="special_perturbations",
+        START, n_steps + 1, [scen.engine(1, [t0, t1, t2] if cheap else [t0, t1, t2, t3], [s1, s2])], physics=DT, model="special_perturbations",
         filter_model="two_body", station_keeping=True, events=ev, seed=11,
         geopotential={"model": "egm96.txt", "degree": 2 if cheap else 4, "order": 0 if cheap else 4},
         perturbations={"third_bodies": [] if cheap else ["sun", "moon"], "solar_radiation_pressure": not cheap,
